@@ -652,5 +652,84 @@ class StepOrder(common.Suite):
         return f"{c['scheme']}:{c['fn']}:no-data+" + "+".join(sorted(set(c["levels"])))
 
 
+class RunStart(common.Suite):
+    """the step length of the FIRST step of a run adapts to the committee data of the configuration the run starts from,
+    also when the calculator that is attached has been used before on another configuration (a restart re-using an
+    expensive committee calculator, atoms edited between two runs): a simulation whose calculator holds stale results is
+    compared, bit for bit, with the same simulation on a brand-new calculator."""
+
+    name = "run-start-committee"
+
+    def cases(self, rng, tier):
+        n = 40 if tier == "quick" else 600
+        for i in range(n):
+            natoms = rng.randint(2, 5)
+            dmax = rng.choice([0.1, 0.2, 0.3])
+            yield {"scheme": "forces" if i % 2 == 0 else "energy", "fn": FNS[(i // 2) % 2], "min": dmax * 0.01, "max": dmax,
+                   "ref": rng.choice([0.05, 0.1, 0.5]), "natoms": natoms, "seed": rng.randint(1, 2 ** 31),
+                   "how": ["used-elsewhere", "edited-between-runs", "used-elsewhere"][i % 3], "nsteps": rng.randint(1, 3)}
+
+    @staticmethod
+    def calc_class():
+        import numpy as np
+        from ase.calculators.calculator import Calculator, all_changes
+
+        class ConfComm(Calculator):
+            """harmonic well with a committee whose spread depends on the configuration"""
+
+            implemented_properties = ["energy", "forces"]  # noqa: RUF012
+
+            def calculate(self, atoms=None, properties=None, system_changes=all_changes):
+                super().calculate(atoms, properties, system_changes)
+                d = self.atoms.get_positions() - 1.0
+                f = -0.1 * d
+                spread = 0.4 * np.abs(np.sin(1.7 * self.atoms.get_positions()))
+                self.results = {"energy": 0.05 * float((d * d).sum()), "forces": f,
+                                "forces_comm": np.stack([f * (1 + (k - 1) * spread) for k in range(3)]),
+                                "energies": np.array([1.0, 1.0 + 0.3 * float(np.abs(np.sin(d)).sum()), 1.0 - 0.1 * float(np.abs(np.cos(d)).sum())])}
+
+        return ConfComm
+
+    def one(self, c, stale):
+        import numpy as np
+
+        atoms = make_atoms(c["natoms"])
+        C = self.calc_class()
+        calc = C()
+        if stale and c["how"] == "used-elsewhere":
+            other = atoms.copy()
+            other.positions += 0.37
+            other.calc = calc
+            other.get_forces()
+        atoms.calc = calc
+        afb = make_afb(atoms, c, c["scheme"], seed=c["seed"])
+        if c["how"] == "edited-between-runs":
+            afb.run(1)
+            if stale:
+                atoms.positions += 0.21                # the calculator still holds the results of the old positions
+            else:
+                atoms.positions += 0.21
+                atoms.calc = C()
+        afb.run(c["nsteps"])
+        return {"delta": flat(afb.delta), "pos": [common.fbits(float(x)) for x in atoms.get_positions().ravel()]}
+
+    def real(self, c):
+        return {"stale": self.one(c, True), "fresh": self.one(c, False)}
+
+    def oracle(self, c, obs):
+        if "exception" in obs:
+            return [("runstart:exception:" + obs["exception"], obs["message"])]
+        out = []
+        if obs["stale"]["delta"] != obs["fresh"]["delta"]:
+            out.append((f"runstart:{c['scheme']}:{c['how']}:delta-from-another-configuration",
+                        f"delta after the run: {obs['stale']['delta'][:3]} with a used calculator, {obs['fresh']['delta'][:3]} with a new one"))
+        if obs["stale"]["pos"] != obs["fresh"]["pos"]:
+            out.append((f"runstart:{c['scheme']}:{c['how']}:trajectory-differs", "positions after the run differ"))
+        return out
+
+    def classify(self, c, obs):
+        return f"{c['scheme']}:{c['fn']}:{c['how']}"
+
+
 def suites(tier):
-    return [Direct(), Committee(), StepOrder()]
+    return [Direct(), Committee(), StepOrder(), RunStart()]
